@@ -223,6 +223,12 @@ func (m *StateMachine) handleCatchupEvent(
 			if !m.handleFinalization(ctx, rlc, resp) {
 				return false
 			}
+
+			// The finalization advanced the height,
+			// and the mirror may have answered the new round entrance with a live view.
+			// Return so that the kernel picks the event handler matching the new round;
+			// staying in this loop would ignore every live event from here on.
+			return true
 		}
 	}
 }
